@@ -100,9 +100,11 @@ CHECKS = {
     "C14": dict(
         text="For an HTTPS configuration family with symbolic transform arguments and User-Agent bytes and enumerated server-output "
         "programs: after every operation of every ordered pair (quick) / triple (thorough, selected) over {the four settings views, "
-        "C2Http with AES+HMAC keys / AES random / RSA private key, profile generation, client dry run, get and response "
+        "C2Http with AES+HMAC keys / AES random / RSA private key, profile generation, client dry run, get, post and response "
         "transform+recover} the deep snapshot of all views, settings_tuple, config_block and metadata attributes is proved unchanged and "
-        "the operation's observable result is proved equal to its result on a freshly parsed configuration; item assignment/deletion on "
+        "the operation's observable result is proved equal to a reference taken on a freshly parsed configuration BEFORE the history ran "
+        "(so results depending on earlier uses — through the object or through state shared between decoders — differ); families incl. "
+        "duplicate setting indices and a BeaconGate vector; item assignment/deletion on "
         "the mappings raises TypeError. Object identity and aliasing are the real ones (the interpreter runs on real Python containers).",
         note="Trusted: z3; symx; SHA-256/AES/HMAC uninterpreted; RSA key import real (concrete DER); random nondeterministic; "
         "lark Tree real / tokens with symbolic text. Longer histories follow by induction from state preservation (stated).",
@@ -152,8 +154,8 @@ CHECKS = {
         "first candidate in (key priority, file offset) order — xorkey, xorencoded, config_block (un-XORed bytes up to 4096/EOF) and settings — "
         "or raises ValueError exactly when no tried key has a candidate. H4: two blocks under two tried keys in both file orders. H2: with "
         "the real 8192-byte buffer, a block at a symbolic offset at/around both buffer boundaries, offset 0/1 and end of file, keys "
-        "69/00/a7(+2e), symbolic neighbour bytes and protocol value. H3: the block inside a PE section, raw and as XorEncoded stage, with "
-        "architecture and compile stamp of the embedding image.",
+        "69/00/a7(+2e), symbolic neighbour bytes and protocol value. H3: the block inside a PE section, raw and as XorEncoded stage (also: block key only "
+        "reached by the all-keys retry; marker-less stub with a nonce containing ff ff ff), with architecture and compile stamp of the embedding image.",
         note="Trusted: z3; symx; file models; cstruct readers; pe.find_mz_offset replaced by None for files < 88 bytes (lemma instances in the "
         "same check). In all-keys mode the order of the 253 left-over keys is implementation-defined (the result must be a true first "
         "candidate of its key; ValueError only if no key at all has one). Settings are compared with BeaconConfig(block), whose decoding "
